@@ -163,7 +163,6 @@ func snapshotMem(st *State) map[string]*MemVer {
 // applyContract uses a callee's contract at a call site: requires are
 // obligations, the frame is havocked, ensures are assumed.
 func (x *Exec) applyContract(st *State, fr *Frame, con *Contract, key string, names []string, args []V, sig *types.Signature, site ssa.Instruction, tp map[string]types.Type) Outcome {
-	con.Used = true
 	if con.Trusted {
 		x.noteAssumption("trusted contract of " + key)
 	}
@@ -189,6 +188,12 @@ func (x *Exec) applyContract(st *State, fr *Frame, con *Contract, key string, na
 		st.assume(t)
 	}
 	env.prove = false
+	if con.AllocSite != nil {
+		if n, err := env.evalAny(con.AllocSite.Expr); err == nil {
+			n = coerce(n, 64, true)
+			x.allocBound(st, fr, site, n.T)
+		}
+	}
 	// results
 	rnames := resultNames(sig)
 	var results []V
@@ -211,27 +216,27 @@ func (x *Exec) applyContract(st *State, fr *Frame, con *Contract, key string, na
 	for _, sp := range con.Assigns {
 		switch sp {
 		case "H":
-			st.havoc("H", func(a string) string { return app("ismeta", a) })
-			noteMod("H")
+			st.havoc("H", x.heapKeep(st))
+			st.noteMod("H")
 			x.noteAssumption("callee " + key + " modifies only non-metadata heap (ismeta frame)")
 		case "H+":
 			brk := st.brk["H"]
 			st.havoc("H", func(a string) string { return app("bvult", a, brk) })
 			x.bumpBrk(st, "H")
-			noteMod("H+")
+			st.noteMod("H+")
 		case "B+":
 			brk := st.brk["B"]
 			st.havoc("B", func(a string) string { return app("bvult", a, brk) })
 			x.bumpBrk(st, "B")
-			noteMod("B+")
+			st.noteMod("B+")
 		case "B":
 			st.havoc("B", nil)
-			noteMod("B")
+			st.noteMod("B")
 		default:
 			// a named pointer parameter: its local space (if any) is havocked
 			if v, ok := vars[sp]; ok && v.K == KPtr && v.Prov != nil {
 				st.havoc(v.Prov.Space, nil)
-				noteMod(v.Prov.Space)
+				st.noteMod(v.Prov.Space)
 			}
 		}
 	}
@@ -250,7 +255,7 @@ func (x *Exec) applyContract(st *State, fr *Frame, con *Contract, key string, na
 		sp := spaceOf(pv, "H")
 		fresh := st.newMemName("wr")
 		st.writeSeq(sp, pv.T, n.T, func(s *State, k string) string { return app("select", fresh, bvadd(pv.T, k)) })
-		noteMod(sp)
+		st.noteMod(sp)
 	}
 	if con.Appends != nil {
 		results[0] = x.applyAppend(st, env, con, vars, results[0])
@@ -267,6 +272,9 @@ func (x *Exec) applyContract(st *State, fr *Frame, con *Contract, key string, na
 		}
 	}
 	for _, en := range con.Ensures {
+		if en.Local && !x.usesLocals() {
+			continue
+		}
 		t, err := env.evalBool(en.Expr)
 		if err != nil {
 			x.genFail(x.instrName(fr, site, "call")+".ensures("+key+")", "callee-contract", x.safetyTags(fr), x.posOf(site.Pos()), err.Error())
@@ -408,6 +416,20 @@ func (x *Exec) builtin(st *State, fr *Frame, name string, cc *ssa.CallCommon, ar
 		return r
 	case "ssa:wrapnilchk":
 		return args[0]
+	case "Add":
+		// unsafe.Add(ptr, len)
+		off, _ := idx64(args[1], cc.Args[1].Type())
+		return vPtr(st.define("uadd", sortBV(64), bvadd(args[0].T, off)), args[0].Prov)
+	case "String", "Slice":
+		// unsafe.String(ptr, len) / unsafe.Slice(ptr, len): the same memory, no copy
+		ln, _ := idx64(args[1], cc.Args[1].Type())
+		p := args[0]
+		if name == "String" {
+			return vTuple(vPtr(p.T, p.Prov), vBV(ln, 64, true))
+		}
+		return vTuple(vPtr(p.T, p.Prov), vBV(ln, 64, true), vBV(ln, 64, true))
+	case "StringData", "SliceData":
+		return args[0].Fs[0]
 	}
 	unsup("builtin %s", name)
 	return V{}
@@ -471,4 +493,111 @@ func (x *Exec) appendSeqDyn(st *State, data V, slen string, byteFn func(s *State
 func (x *Exec) appendTyped(st *State, fr *Frame, cc *ssa.CallCommon, args []V, site ssa.Instruction, et types.Type) V {
 	unsup("append on non-byte slice ([]%s)", et)
 	return V{}
+}
+
+// sigOf finds the signature of a contract key: an SSA function, a generic
+// instantiation matching the caller's instantiation, or an interface method.
+func (x *Exec) sigOf(key, from string) *types.Signature {
+	if x.ld == nil {
+		return nil
+	}
+	if f, ok := x.ld.byKey[key]; ok {
+		return f.Signature
+	}
+	if l, ok := x.ld.generic[key]; ok && len(l) > 0 {
+		// prefer the instantiation with the same type arguments as the caller
+		for _, f := range l {
+			fk := fnKey(f)
+			if lb := strings.Index(fk, "["); lb >= 0 {
+				if rb := strings.Index(fk, "]"); rb > lb && strings.Contains(from, fk[lb:rb+1]) {
+					return f.Signature
+				}
+			}
+		}
+		return l[0].Signature
+	}
+	// interface method pkg.Iface.Method
+	parts := strings.Split(key, ".")
+	if len(parts) >= 3 {
+		for _, p := range x.ld.pkgs {
+			if shortPkg(p.PkgPath) == strings.Join(parts[:len(parts)-2], ".") && p.Types != nil {
+				if obj := p.Types.Scope().Lookup(parts[len(parts)-2]); obj != nil {
+					if it, ok := obj.Type().Underlying().(*types.Interface); ok {
+						for i := 0; i < it.NumMethods(); i++ {
+							if it.Method(i).Name() == parts[len(parts)-1] {
+								sig := it.Method(i).Type().(*types.Signature)
+								// give it a receiver so that argument counting includes self
+								return types.NewSignatureType(types.NewVar(0, nil, "self", obj.Type()), nil, nil, sig.Params(), sig.Results(), sig.Variadic())
+							}
+						}
+					}
+				}
+			}
+		}
+	}
+	return nil
+}
+
+func (x *Exec) paramNamesOf(key string, sig *types.Signature) []string {
+	if x.ld != nil {
+		if f, ok := x.ld.byKey[key]; ok {
+			return declParamNames(f)
+		}
+		if l, ok := x.ld.generic[key]; ok && len(l) > 0 {
+			return declParamNames(l[0])
+		}
+	}
+	var out []string
+	if sig.Recv() != nil {
+		out = append(out, "self")
+	}
+	return append(out, paramNames(sig)...)
+}
+
+// heapKeep is the frame predicate of an H havoc: codec metadata is never
+// modified, and neither are the ranges the function under analysis declares
+// with `keeps` (separation assumptions, reported in the evidence).
+func (x *Exec) heapKeep(st *State) func(a string) string {
+	var ranges [][2]string
+	if x.con != nil && len(st.frames) > 0 {
+		top := st.frames[0]
+		vars := map[string]V{}
+		x.bindParams(vars, top.fn, top.args)
+		env := &CEnv{st: st, oldMem: top.entryMem, vars: vars, tparam: x.tparam, fn: x.key}
+		for _, k := range x.con.Keeps {
+			pv, ok := vars[k.Ptr]
+			if !ok || pv.K != KPtr {
+				continue
+			}
+			n, err := env.evalAny(k.N)
+			if err != nil {
+				continue
+			}
+			n = coerce(n, 64, false)
+			ranges = append(ranges, [2]string{pv.T, n.T})
+			x.noteAssumption(fmt.Sprintf("%s: separation - callees and loops do not write the %s bytes at %s (keeps)", x.key, k.N.String(), k.Ptr))
+		}
+	}
+	return func(a string) string {
+		cs := []string{app("ismeta", a)}
+		for _, r := range ranges {
+			cs = append(cs, app("bvult", bvsubw(a, r[0], 64), r[1]))
+		}
+		return or(cs...)
+	}
+}
+
+// usesLocals: callee clauses marked local are assumed only by callers whose own
+// contract has local clauses (the chain that needs them), so that every other
+// caller's queries stay small.
+func (x *Exec) usesLocals() bool {
+	if x.con == nil {
+		return false
+	}
+	for _, en := range x.con.Ensures {
+		if en.Local {
+			return true
+		}
+	}
+	return false
 }
